@@ -452,7 +452,11 @@ impl<'a, 'src: 'a> Compiler<'a, 'src> {
   /// Emit byte code for a return
   fn emit_return(&mut self, line: u32) {
     match self.fun_kind {
-      FunKind::Initializer => self.emit_byte(SymbolicByteCode::GetLocal(0), line),
+      // self may have been captured by a closure in which case slot 0 holds its box
+      FunKind::Initializer => match self.resolve_local(SELF) {
+        Some((local, state)) => self.emit_local_get(state, local, line),
+        None => self.emit_byte(SymbolicByteCode::GetLocal(0), line),
+      },
       _ => self.emit_byte(SymbolicByteCode::Nil, line),
     }
 
